@@ -180,6 +180,7 @@ func (c *checker) totalAlloc() uint64 {
 
 func (c *checker) one(in []byte, class string, measure bool) result {
 	c.r.Transitions += 3
+	c.r.CurNote, c.r.CurBytes = class, in
 	var before uint64
 	if measure {
 		if progressFile != "" {
